@@ -346,3 +346,34 @@ def run(ctx):
                       "make_selector(selector)", key=f"R10.5:{mname4.replace('flow.record.', '')}:selector-engine-forced")
     ctx.floor("R10.5", "make_selector calls in readers", n_ms, 4)
 
+    # ------------------------------------------------------------------ R10.6 the compiled engine's helper objects keep nothing between records
+    ctx.rule("R10.6", "CompiledSelector.match and the WrappedRecord it hands to the expression store nothing that outlives the match: no attribute store on the selector, no "
+                      "fill of a container reachable from it (a per-selector cache of 'missing' names answers for the next record of the same name, whatever fields it has)")
+    n_w = 0
+    for q6 in ("flow.record.selector.CompiledSelector.match", "flow.record.selector.WrappedRecord.__getattr__", "flow.record.selector.WrappedRecord.__init__"):
+        f6 = prog.find(q6, required=False)
+        if f6 is None:
+            continue
+        n_w += 1
+        me6 = func_params(f6)[0]
+        is_init = f6.name == "__init__"
+        for n in ast.walk(f6):
+            bad = None
+            if isinstance(n, ast.Attribute) and isinstance(n.ctx, ast.Store) and norm(n.value) == me6 and not is_init:
+                bad = n
+            if isinstance(n, ast.Subscript) and isinstance(n.ctx, ast.Store) and norm(n.value).startswith(me6 + "."):
+                bad = n
+            if isinstance(n, ast.Call) and isinstance(n.func, ast.Attribute) and n.func.attr in ("add", "update", "setdefault", "append", "__setitem__") and norm(n.func.value).startswith(me6 + "."):
+                bad = n
+            if bad is not None:
+                ctx.fail("R10.6", f"{q6.split('selector.')[1]}:stores:{norm(bad)[:40]}", f"`{norm(bad)[:60]}` keeps state on the selector / its record wrapper across records", bad,
+                         key=f"R10.6:{q6.split('selector.')[1]}:state-between-records")
+        # a cache handed to the wrapper by the selector
+        for c6 in calls_in(f6):
+            r6 = prog.resolve_expr(prog.module("flow.record.selector"), c6.func) if isinstance(c6.func, ast.Name) else None
+            if isinstance(r6, DefRef) and r6.qualname.endswith("WrappedRecord") and (len(c6.args) > 1 or c6.keywords):
+                ctx.fail("R10.6", f"{q6.split('selector.')[1]}:WrappedRecord-arguments", f"`{norm(c6)[:60]}` hands the record wrapper more than the record: state shared between the wrappers of "
+                         "successive records", c6, key="R10.6:WrappedRecord:shared-state-argument")
+        ctx.ok("R10.6", f"{q6.split('selector.')[1]}:examined", "", f6)
+    ctx.floor("R10.6", "compiled-engine helper methods examined", n_w, 2)
+
